@@ -110,13 +110,120 @@ fn rewrite_for<B: Backend>(out: &mut Vec<SubCheck>) {
     ));
 }
 
+
+// ---------------------------------------------------------------------------
+// key bytes of every other kind's length offered to each decoder
+
+#[derive(Clone, Debug, Serialize, Deserialize)]
+struct KeyBytesCase {
+    target_backend: String,
+    target_kind: String,
+    source: String,
+    #[serde(with = "crate::util::hexser")]
+    bytes: Vec<u8>,
+}
+
+fn decode_ok<B: Backend>(kind: &str, bytes: &[u8]) -> bool {
+    use paseto_core::version::{Local, PkePublic, PkeSecret, Public, Secret};
+    match kind {
+        "Local" => key_from_bytes::<V<B>, Local>(bytes).is_ok(),
+        "Public" => key_from_bytes::<V<B>, Public>(bytes).is_ok(),
+        "Secret" => key_from_bytes::<V<B>, Secret>(bytes).is_ok(),
+        "PkePublic" => key_from_bytes::<V<B>, PkePublic>(bytes).is_ok(),
+        _ => key_from_bytes::<V<B>, PkeSecret>(bytes).is_ok(),
+    }
+}
+
+/// the exact byte length kind `kind` of version `ver` has (None: variable, v1 DER)
+fn kind_len(ver: crate::refmodel::Ver, kind: &str) -> Option<usize> {
+    use crate::refmodel::Ver;
+    match (ver, kind) {
+        (_, "Local") => Some(32),
+        (Ver::V2 | Ver::V4, "Public" | "PkePublic") => Some(32),
+        (Ver::V2 | Ver::V4, _) => Some(64),
+        (Ver::V3, "Public" | "PkePublic") => Some(49),
+        (Ver::V3, _) => Some(48),
+        (Ver::V1, _) => None,
+    }
+}
+
+fn keybytes_case<B: Backend>(c: &KeyBytesCase) -> R {
+    let got = crate::util::catch(|| decode_ok::<B>(&c.target_kind, &c.bytes)).map_err(|loc| Fail::new(format!("C10/{}/{}/decode-panicked", B::NAME, c.target_kind), loc))?;
+    if let Some(n) = kind_len(B::VER, &c.target_kind) {
+        if c.bytes.len() != n && got {
+            return Err(Fail::new(
+                format!("C10/{}/key.{}/accepts-wrong-length-{}", B::NAME, c.target_kind.to_lowercase(), c.bytes.len()),
+                format!("{} bytes ({}) were accepted as a {}-byte {} key of {}", c.bytes.len(), c.source, n, c.target_kind, B::NAME),
+            ));
+        }
+    } else if got && !c.source.contains("rsa") {
+        return Err(Fail::new(
+            format!("C10/{}/key.{}/accepts-foreign-key-bytes", B::NAME, c.target_kind.to_lowercase()),
+            format!("{} bytes ({}) were accepted as a v1 {} key", c.bytes.len(), c.source, c.target_kind),
+        ));
+    }
+    Ok(())
+}
+
+fn keybytes<B: Backend>(acc: &mut Acc) {
+    // sources: serialised keys of every kind of every back end, ids, and every length 0..=128
+    let mut sources: Vec<(String, Vec<u8>)> = Vec::new();
+    let reps = acc.tier.pick(3u64, 30);
+    crate::for_backends!(S => {
+        for i in 0..reps {
+            let ks = KeySeed::from_u64(mix(acc.seed, i * 131 + fnv(S::NAME.as_bytes())));
+            let sk = secret_bytes(S::VER, &ks);
+            let pk = public_bytes(S::VER, &sk);
+            sources.push((format!("{} local key", S::NAME), local_key_bytes(&ks).to_vec()));
+            if S::VER != crate::refmodel::Ver::V1 {
+                sources.push((format!("{} secret key", S::NAME), sk.clone()));
+                sources.push((format!("{} public key", S::NAME), pk.clone()));
+            } else {
+                sources.push((format!("{} rsa secret key", S::NAME), sk.clone()));
+                sources.push((format!("{} rsa public key", S::NAME), pk.clone()));
+            }
+            sources.push((format!("{} key id", S::NAME), crate::rng::det_bytes(hash_of(&ks), 0x1d, 33)));
+            // a longer key's prefix-extension: the 32-byte key followed by more bytes
+            let mut ext = local_key_bytes(&ks).to_vec();
+            ext.extend_from_slice(&pk[..pk.len().min(32)]);
+            sources.push((format!("{} local key || public key", S::NAME), ext));
+        }
+    });
+    for len in 0..=128usize {
+        sources.push((format!("{len} random bytes"), crate::rng::det_bytes(acc.seed ^ len as u64, 0xc10, len)));
+    }
+    let mut n = 0u64;
+    for kind in ["Local", "Public", "Secret", "PkePublic", "PkeSecret"] {
+        for (src, bytes) in &sources {
+            let c = KeyBytesCase { target_backend: B::NAME.into(), target_kind: kind.into(), source: src.clone(), bytes: bytes.clone() };
+            acc.eval();
+            n += 1;
+            if kind_len(B::VER, kind).map(|l| l != bytes.len()).unwrap_or(true) {
+                acc.nt(hash_of(&(B::NAME, kind, bytes)));
+            }
+            acc.check(&c, |_| keybytes_case::<B>(&c));
+        }
+    }
+    acc.class_n("keybytes:offers", n);
+    acc.exhaustive.push(format!("{}: key bytes of every kind of every back end, ids, and every length 0..=128 offered to each of the five decoders", B::NAME));
+    acc.sample(|| json!({"backend": B::NAME, "offers": n, "example": "the 64-byte k4.secret body offered as a k4.local key must be rejected"}));
+}
+
+fn keybytes_for<B: Backend>(out: &mut Vec<SubCheck>) {
+    out.push(SubCheck::custom(format!("c10.keybytes/{}", B::NAME), 2, keybytes::<B>, |v: &Value, _acc: &mut Acc| {
+        let c: KeyBytesCase = serde_json::from_value(v.clone()).map_err(|e| Fail::new("HARNESS/replay-decode", format!("{e}")))?;
+        keybytes_case::<B>(&c)
+    }));
+}
+
 pub fn def() -> PropertyDef {
     let mut subs = vec![SubCheck::custom("c10.matrix", 5, matrix, replay_pair)];
     crate::for_backends!(B => rewrite_for::<B>(&mut subs));
+    crate::for_backends!(B => keybytes_for::<B>(&mut subs));
     PropertyDef {
         id: "C10",
         level: "exploration",
-        rule: "(1) the full ordered-pair matrix: every library-produced valid string of every kind (tokens local/public, keys, ids, PIE, PBKW, sealed keys) of every back end is offered to every (back end, kind) parser - 6 x 18 parsers incl. typed keys and PKE key kinds; expectation from the header table of the specification: accept iff same version and same kind (sibling back ends are the same version and must accept; RSA-2048 vs RSA-4096 v1 key kinds must refuse each other); (2) header rewriting of authenticated PIE / PBKW / sealed blobs to the other key kind and to every other version, unwrapped with the same secret bytes: must fail. Key byte strings of every length 0..128 offered to every decoder are enumerated in C08. Non-trivial iff the pair differs in exactly one of version / kind (near miss) or must be accepted",
+        rule: "(1) the full ordered-pair matrix: every library-produced valid string of every kind (tokens local/public, keys, ids, PIE, PBKW, sealed keys) of every back end is offered to every (back end, kind) parser - 6 x 18 parsers incl. typed keys and PKE key kinds; expectation from the header table of the specification: accept iff same version and same kind (sibling back ends are the same version and must accept; RSA-2048 vs RSA-4096 v1 key kinds must refuse each other); (2) header rewriting of authenticated PIE / PBKW / sealed blobs to the other key kind and to every other version, unwrapped with the same secret bytes: must fail. (3) key bytes: the serialised keys of every kind of every back end, key ids, a 32-byte key followed by further bytes, and every length 0..=128 are offered to each of the five key decoders of every back end: anything whose length is not exactly that of the requested kind must be rejected. Non-trivial iff the pair differs in exactly one of version / kind (near miss) or must be accepted",
         assumptions: vec!["the matrix is enumerated completely for the sampled source strings (5 per kind and back end quick, 50 thorough)"],
         subs,
     }
